@@ -174,7 +174,9 @@ pub fn plan(property: &str, tier: Tier) -> Option<Plan> {
             jobs.push(g("shapes/diamond", "rel", if q { 6 } else { 9 }).armed(&a));
             jobs.push(g("shapes/pending", "rel", if q { 4 } else { 7 }).armed(&a));
             jobs.push(g("shapes/bindvars", "rel", if q { 6 } else { 8 }).armed(&a));
+            jobs.push(g("shapes/readopt", "rel", if q { 4 } else { 7 }).armed(&a));
             jobs.push(g("shapes/bindvars", "rel", if q { 6 } else { 8 }).armed(&a));
+            jobs.push(g("shapes/readopt", "rel", if q { 4 } else { 7 }).armed(&a));
             if !q {
                 jobs.push(g("c01/grammar3-maps", "rel", 5).armed(&a));
                 jobs.push(g("c01/grammar3-binds", "rel", 5).armed(&a));
@@ -202,6 +204,9 @@ pub fn plan(property: &str, tier: Tier) -> Option<Plan> {
             // a bind main lifted inside the recompute heap past a pending node of its new right-hand side
             jobs.push(g("shapes/pending", "rel", if q { 5 } else { 7 }).armed(&a));
             jobs.push(g("shapes/pending", "dbg", if q { 4 } else { 6 }).armed(&a));
+            // a computed node released by one bind and picked up by a later one in the same stabilise
+            jobs.push(g("shapes/readopt", "rel", if q { 4 } else { 7 }).armed(&a));
+            jobs.push(g("shapes/readopt", "dbg", if q { 4 } else { 6 }).armed(&a));
             ("model_checking", mc_rule, vec!["value domain {0,1,2}", "programs of <= 15 nodes", "internal recompute schedules reached through observe / un-observe orders of <= 2-3 observers"], if q { 60 } else { 900 })
         }
         "C03" => {
@@ -219,6 +224,7 @@ pub fn plan(property: &str, tier: Tier) -> Option<Plan> {
             jobs.push(g("c03/stale_rhs", "dbg", if q { 5 } else { 8 }).armed(&a));
             // bind closures that create variables (top scope / current scope) and hand back their watch nodes
             jobs.push(g("shapes/bindvars", "rel", if q { 6 } else { 8 }).armed(&a));
+            jobs.push(g("shapes/readopt", "rel", if q { 4 } else { 7 }).armed(&a));
             jobs.push(g("shapes/bindvars", "dbg", if q { 5 } else { 7 }).armed(&a));
             ("model_checking", mc_rule, vec!["inner nodes are observed only while their defining bind is observed (DESIGN §8)", "value domain {0,1,2}", "bind nesting depth <= 2"], if q { 60 } else { 900 })
         }
@@ -245,6 +251,7 @@ pub fn plan(property: &str, tier: Tier) -> Option<Plan> {
                 jobs.push(g("shapes/fn-writes", prof, if q { 6 } else { 9 }).armed(&a));
                 jobs.push(g("shapes/pending", prof, if q { 5 } else { 7 }).armed(&a));
                 jobs.push(g("shapes/bindvars", prof, if q { 6 } else { 8 }).armed(&a));
+                jobs.push(g("shapes/readopt", prof, if q { 4 } else { 7 }).armed(&a));
                 // the other worlds keep to the usage rules too: their panics are C04's as well (core::also_as_c04)
                 jobs.push(JobDef::new("vars", "c08/dropped", prof, if q { 6 } else { 8 }).armed(&a));
                 jobs.push(JobDef::new("vars", "c08/late", prof, if q { 5 } else { 7 }).armed(&a));
@@ -278,6 +285,8 @@ pub fn plan(property: &str, tier: Tier) -> Option<Plan> {
             jobs.push(g("c05/stale", "dbg", if q { 7 } else { 9 }).armed(&a));
             jobs.push(g("c05/clones", "dbg", if q { 5 } else { 7 }).armed(&a));
             jobs.push(g("shapes/bindvars", "rel", if q { 6 } else { 8 }).armed(&a));
+            jobs.push(g("shapes/readopt", "rel", if q { 4 } else { 7 }).armed(&a));
+            jobs.push(g("shapes/readopt", "rel", if q { 4 } else { 7 }).armed(&a));
             ("model_checking", mc_rule, vec!["dependency cone computed syntactically by the harness from the program and the reference's current bind right-hand sides"], if q { 60 } else { 900 })
         }
         "C06" => {
@@ -288,6 +297,7 @@ pub fn plan(property: &str, tier: Tier) -> Option<Plan> {
             jobs.push(g("c01/reobserve2", "rel", if q { 8 } else { 10 }).armed(&a));
             jobs.push(g("shapes/binds", "rel", if q { 6 } else { 7 }).armed(&a));
             jobs.push(g("c06/cutoffs", "dbg", if q { 4 } else { 6 }).armed(&a));
+            jobs.push(g("shapes/readopt", "rel", if q { 4 } else { 7 }).armed(&a));
             // a variable with Cutoff::Never written outside stabilise, from node functions (deferred) and from update
             // handlers: its needed readers must re-run at the next stabilise whatever was written (vars world)
             jobs.push(JobDef::new("vars", "c08/never", "rel", if q { 7 } else { 9 }).armed(&a));
@@ -372,6 +382,7 @@ pub fn plan(property: &str, tier: Tier) -> Option<Plan> {
             jobs.push(g("shapes/fn-writes", "rel", if q { 6 } else { 9 }).armed(&a));
             jobs.push(g("shapes/pending", "rel", if q { 4 } else { 7 }).armed(&a));
             jobs.push(g("shapes/bindvars", "rel", if q { 6 } else { 8 }).armed(&a));
+            jobs.push(g("shapes/readopt", "rel", if q { 4 } else { 7 }).armed(&a));
             let mut j = g("c10/focus", "rel", if q { 8 } else { 10 }).armed(&a);
             j.split_first = true;
             jobs.push(j);
